@@ -32,6 +32,8 @@ type Analysis struct {
 	CallModel       func(a *Analysis, st *State, call ssa.CallInstruction, args []*Expr) (*Expr, bool)
 	OpaqueFields    map[string]bool                                   // "Struct.field": loads are never store-forwarded (always versioned atoms)
 	EventArgs       func(st *State, desc string, args []*Expr) string // optional argument rendering for call events
+	StoreHook       func(st *State, addr, val *Expr, in *ssa.Store)   // optional observer of every store (also in inlined helpers)
+	ForceInline     map[string]bool                                   // known functions analysed in caller context by this analysis only
 	EventsInInlined bool
 
 	// results
@@ -199,6 +201,7 @@ func (a *Analysis) step(st *State, fr *frame, in ssa.Instruction) {
 				a.bind(st, fr, x, st.load(xe, x.Type()))
 			}
 		case token.ARROW:
+			st.event("recv:" + chanName(xe))
 			a.bind(st, fr, x, a.freshLeaf(st, fr, "val", x))
 		default:
 			a.bind(st, fr, x, mk("un", x.Type(), x.Op.String(), 0, xe))
@@ -329,6 +332,9 @@ func (a *Analysis) step(st *State, fr *frame, in ssa.Instruction) {
 		// bound on edges
 	case *ssa.Store:
 		addr, val := a.exprOf(st, fr, x.Addr), a.exprOf(st, fr, x.Val)
+		if a.StoreHook != nil {
+			a.StoreHook(st, addr, val, x)
+		}
 		st.store(addr, val, siteTok(fr, x))
 		if addr.Op == "fa" {
 			nn := false
@@ -705,6 +711,9 @@ func chanName(e *Expr) string {
 	switch e.Op {
 	case "ld":
 		if e.Args[0].Op == "fa" {
+			if fa := e.Args[0]; fa.S == "C" && len(fa.Args) > 0 && fa.Args[0].Op == "ld" && fa.Args[0].Args[0].Op == "fa" {
+				return fa.Args[0].Args[0].S + ".C" // channel of a timer field
+			}
 			return e.Args[0].S
 		}
 		if e.Args[0].Op == "ia" {
@@ -1527,7 +1536,7 @@ func (a *Analysis) shouldInlineMulti(c *ssa.Call, callee *ssa.Function) bool {
 	if callee.Parent() != nil {
 		return false
 	}
-	if n := a.P.Name(callee); knownFuncs[n] && (!knownInline[n] || len(callee.Blocks) == 1) {
+	if n := a.P.Name(callee); knownFuncs[n] && !a.ForceInline[n] && (!knownInline[n] || len(callee.Blocks) == 1) {
 		return false // opaque by policy, or handled by single-block inlining
 	}
 	if a.NoInline != nil && a.NoInline[a.P.Name(callee)] {
@@ -1569,6 +1578,7 @@ func (a *Analysis) inlineMulti(st *State, c *ssa.Call, callee *ssa.Function) ([]
 	}
 	sub := NewAnalysis(a.P, callee)
 	sub.AtomHook, sub.EventArgs, sub.CallModel, sub.NoInline, sub.TrackFields, sub.OpaqueFields = a.AtomHook, a.EventArgs, a.CallModel, a.NoInline, a.TrackFields, a.OpaqueFields
+	sub.StoreHook, sub.ForceInline = a.StoreHook, a.ForceInline
 	sub.baseFrame = nf
 	sub.stack = append(append([]*ssa.Function{}, a.stack...), a.Fn)
 	seen := map[int64]bool{}
